@@ -69,6 +69,22 @@ BUILT["C08"]=("exhaustive enumeration of concrete policies up to a leaf bound x 
 BUILT["C11"]=("bounded-exhaustive input enumeration executed in fault-contained worker subprocesses",
         "Strings (22 parser entry points each): all strings up to the length bound over a 22-character alphabet, all grammar-token sequences up to the token bound, every single edit of every valid string of the term enumeration, scaling probes (nesting to 200000, width to 100000, 100 kB names, 40-digit numbers); script decoder: token sequences, raw bytes, truncations/substitutions of valid scripts, deep/wide scripts; interpreter: standard scriptPubKey templates and truncations x scriptSigs x witness sequences; PSBT: reachable fully-populated states with every field dropped/emptied/set to a boundary value through finalize*/extract/update*/sighash_msg; planner: key forms x asset fingerprints x derivation paths x capability flags. Each case runs in a worker process (address-space limit, wall budget); panics, aborts, stack overflows and hangs are attributed to the single offending input. Also: malformed bodies carrying a valid checksum of themselves, every leaf token given a bracketed argument list, interpreter over every B term (full alphabet) x every witness stack up to length 3 (4), hash commitments to non-32-byte preimages.",
         "3 C11")
+R6={
+ "C01":"Lock values: ordered pairs incl. values with bits above the BIP-68 mask and the 500000000 boundary in every conjunction context; a tap leaf re-using the internal key; guarded macro contexts.",
+ "C02":"PSBT completeness also after an update that records no key origins (witness search restricted to the keys whose signatures are present) and in a transaction with one final and one non-final input.",
+ "C04":"Key pushes with every other prefix byte (hybrid encodings) must be refused or re-encode identically.",
+ "C08":"Root thresholds of 6 and 7 keys (every k) through every entry point; a compiler panic is a violation.",
+ "C10":"Wallet policies: descriptor -> policy -> text -> policy -> descriptor over a boundary list of multipath steps (870 templates).",
+ "C12":"Lock family with boundary lock values (2^16, 2^22, 2^23, 2^31-1 neighbourhoods) in both orders.",
+ "C13":"Sequences with bits outside the BIP-68 mask around every effective lock value.",
+ "C14":"A tenth parameter set has one final and one non-final input (mixed finality).",
+ "C15":"A fourth build over full 33-byte keys must commit to the same output as the x-only build, on key sets whose x-only and 33-byte orders differ.",
+ "C16":"Tap trees: balanced 4..512 (thorough 1024) leaves, a late / early 256-leaf subtree, depth-128 caterpillars in both directions.",
+ "C20":"The translated object's static figures equal those of the same term built directly and parsed from text over the target keys.",
+}
+for _k,_add in R6.items():
+    _a,_b,_c=BUILT[_k]
+    BUILT[_k]=(_a,_b+" "+_add,_c)
 NA_REASON={}
 
 def hooks_commits():
